@@ -102,6 +102,19 @@ func consumePrefix(s, prefix string) (string, bool) {
 	return s, false
 }
 
+// isDigits reports whether s is a non-empty string of ASCII digits.
+func isDigits(s string) bool {
+	if s == "" {
+		return false
+	}
+	for i := 0; i < len(s); i++ {
+		if s[i] < '0' || s[i] > '9' {
+			return false
+		}
+	}
+	return true
+}
+
 func (d *Decimal) setString(c *Context, s string) (Condition, error) {
 	orig := s
 	s, d.Negative = consumePrefix(s, "-")
@@ -155,6 +168,11 @@ func (d *Decimal) setString(c *Context, s string) (Condition, error) {
 		exp := int64(len(s) - i - 1)
 		exps = append(exps, -exp)
 		s = s[:i] + s[i+1:]
+	}
+	// The mantissa must consist of digits only; BigInt.SetString would also
+	// accept a sign here (".-5").
+	if !isDigits(s) {
+		return 0, fmt.Errorf("parse mantissa: %s", s)
 	}
 	if _, ok := d.Coeff.SetString(s, 10); !ok {
 		return 0, fmt.Errorf("parse mantissa: %s", s)
